@@ -99,6 +99,10 @@ func scenario(c Case, dir string, scale int) string {
 			}
 		case "after-finish":
 			tk.Commands = []string{fmt.Sprintf("printf 'Q:%d\\n' >> %s", i, log)}
+		case "after-hook":
+			// the long command is the task's first after command
+			tk.Commands = []string{fmt.Sprintf("printf 'F:%d\\n' >> %s", i, log)}
+			tk.After = []string{long, fmt.Sprintf("printf 'L:%d\\n' >> %s", i, log)}
 		case "ctx-up", "ctx-before":
 			// the long command belongs to the task's execution context
 			tk.Commands = []string{fmt.Sprintf("printf 'K:%d\\n' >> %s", i, log)}
@@ -386,6 +390,10 @@ func scenario(c Case, dir string, scale int) string {
 				}
 				complete = n == burstN
 			}
+			if c.Phase == "after-hook" {
+				// the task's own commands were through: cutting its after hook short does not make it a failure
+				continue
+			}
 			if e == nil && !complete {
 				return fmt.Sprintf("task %d was interrupted (or never started) but Run returned nil", i)
 			}
@@ -584,7 +592,7 @@ func normalise(c Case) Case {
 	return c
 }
 
-var phases = []string{"before-run", "before-hook", "command", "second-command", "burst", "after-finish", "ctx-up", "ctx-before"}
+var phases = []string{"before-run", "before-hook", "command", "second-command", "burst", "after-finish", "ctx-up", "ctx-before", "after-hook"}
 
 func genCase(rt *rapid.T) Case {
 	c := Case{
